@@ -153,7 +153,17 @@ def psd_proj(input):
     return (v * w) @ v.conjugate().T
 
 
-@nb.vectorize  # pragma: no cover
+# Explicit loops, real ones first: a lazily compiled ufunc would reuse a
+# complex loop for real inputs once a complex call came first.
+_thresh_signatures = [
+    "float32(float32, float32)",
+    "float64(float64, float64)",
+    "complex64(float32, complex64)",
+    "complex128(float64, complex128)",
+]
+
+
+@nb.vectorize(_thresh_signatures)  # pragma: no cover
 def _soft_thresh(lamda, input):
     abs_input = abs(input)
     if abs_input == 0:
@@ -167,7 +177,7 @@ def _soft_thresh(lamda, input):
     return mag * sign
 
 
-@nb.vectorize  # pragma: no cover
+@nb.vectorize(_thresh_signatures)  # pragma: no cover
 def _hard_thresh(lamda, input):
     abs_input = abs(input)
     if abs_input > lamda:
